@@ -44,6 +44,18 @@ X86 = [
     ("mulpd {0}, {1}", ["s", "sd"], ["x", "x"], [], [], False),
     ("pxor {0}, {1}", ["s", "sd"], ["x", "x"], [], [], True),
     ("vcvtsi2sdq {0}, {1}, {2}", ["s", "s", "d"], ["q", "x", "x"], [], [], False),
+    # shifts: by an immediate and by %cl (an implicit-looking but written operand: 7th field = families read besides
+    # the written operands); the flags a shift leaves depend on the count, so they are not judged (None)
+    ("shlq $3, {0}", ["sd"], ["q"], [], None, False),
+    ("sarq $1, {0}", ["sd"], ["q"], [], None, False),
+    ("shrl $7, {0}", ["sd"], ["l"], [], None, False),
+    ("shlq %cl, {0}", ["sd"], ["q"], [], None, False, ["gpr:c"]),
+    ("sarl %cl, {0}", ["sd"], ["l"], [], None, False, ["gpr:c"]),
+    ("shrq %cl, {0}", ["sd"], ["q"], [], None, False, ["gpr:c"]),
+    # three-operand multiply next to the two-operand form above
+    ("imulq $3, {0}, {1}", ["s", "d"], ["q", "q"], [], None, False),
+    ("negq {0}", ["sd"], ["q"], [], X86_ALL, False),
+    ("notq {0}", ["sd"], ["q"], [], [], False),
 ]
 # instructions whose operands are all implicit: (text, families read, families written)
 X86_IMPLICIT = [
@@ -75,6 +87,12 @@ A64 = [
     ("fmul {0}, {1}, {2}", ["d", "s", "s"], ["v4s", "v4s", "v4s"], [], [], False),
     ("fmla {0}, {1}, {2}", ["sd", "s", "s"], ["v2d", "v2d", "v2d"], [], [], False),
     ("fmov {0}, {1}", ["d", "s"], ["d", "d"], [], [], False),
+    ("lsr {0}, {1}, #3", ["d", "s"], ["x", "x"], [], [], False),
+    ("asr {0}, {1}, #1", ["d", "s"], ["w", "w"], [], [], False),
+    ("add {0}, {1}, #1, lsl #12", ["d", "s"], ["x", "x"], [], [], False),
+    ("subs {0}, {1}, #1", ["d", "s"], ["x", "x"], [], A64_NZCV, False),
+    ("ands {0}, {1}, {2}", ["d", "s", "s"], ["x", "x", "x"], [], A64_NZCV, False),
+    ("neg {0}, {1}", ["d", "s"], ["x", "x"], [], [], False),
 ]
 
 DB_FLAGS_INCOMPLETE = set()   # was {adcq, andq, orq, xorq, testq} before the ISA database was repaired (F19)
@@ -113,7 +131,9 @@ def gen(isa, rnd, gp, vec):
         text, rd, wr = rnd.choice(X86_IMPLICIT)
         return {"text": text, "R": sorted(rd), "W": sorted(wr), "WB": [], "FR": [], "FW": [], "lat": 0, "latwo": 0,
                 "lds": False, "ST": [], "LD": [], "CH": [], "shape": text, "flags_known": True, "db_flags_incomplete": False}
-    tmpl, roles, classes, fr, fw, zero = rnd.choice(X86 if isa == "x86" else A64)
+    entry = rnd.choice(X86 if isa == "x86" else A64)
+    tmpl, roles, classes, fr, fw, zero = entry[:6]
+    also_read = list(entry[6]) if len(entry) > 6 else []
     fams = []
     for c in classes:
         is_gp = (c in "qlwb") if isa == "x86" else (c in ("x", "w"))
@@ -129,6 +149,7 @@ def gen(isa, rnd, gp, vec):
             R.add(f)
         if "d" in r:
             W.add(f)
+    R.update(also_read)
     flags_known = fw is not None
     mn = tmpl.split()[0]
     return {
